@@ -36,12 +36,29 @@ type Case struct {
 	Lo     float64   `json:"lo"`  // used when Cfg is 1 or 3
 	Hi     float64   `json:"hi"`  // used when Cfg is 2 or 3
 	Probes []float64 `json:"probes"`
+	// Sorted hands the sample over in ascending order (weights attached) with its Sorted flag
+	// set: a performance hint that must not change any result.
+	Sorted bool `json:"sorted,omitempty"`
 }
 
 func (c *Case) kde() *stats.KDE {
 	k := &stats.KDE{Sample: stats.Sample{Xs: append([]float64(nil), c.Xs...)}, Kernel: stats.KDEKernel(c.Kernel), Bandwidth: c.BW}
 	if c.W != nil {
 		k.Sample.Weights = append([]float64(nil), c.W...)
+	}
+	if c.Sorted {
+		idx := make([]int, len(c.Xs))
+		for i := range idx {
+			idx[i] = i
+		}
+		sort.SliceStable(idx, func(a, b int) bool { return c.Xs[idx[a]] < c.Xs[idx[b]] })
+		for j, i := range idx {
+			k.Sample.Xs[j] = c.Xs[i]
+			if c.W != nil {
+				k.Sample.Weights[j] = c.W[i]
+			}
+		}
+		k.Sample.Sorted = true
 	}
 	switch c.Cfg {
 	case 1:
@@ -292,6 +309,9 @@ var checkKDE = ev.Register("kde", func(c *Case) ev.Outcome {
 	}
 	if c.W != nil {
 		classes = append(classes, "weighted")
+		if c.Sorted {
+			classes = append(classes, "weighted-sorted-flag")
+		}
 	}
 	if c.Kernel != kDelta {
 		// integral of the density between consecutive probes, panels split at the kinks
@@ -588,7 +608,9 @@ func drawCase(t *rapid.T) *Case {
 func TestKDE(t *testing.T) {
 	ev.Rule(rule)
 	ev.Rapid(t, "c12-kde", 12000, 96000, func(rt *rapid.T) {
-		checkKDE.Run(rt, drawCase(rt))
+		c := drawCase(rt)
+		c.Sorted = rapid.IntRange(0, 2).Draw(rt, "sortedFlag") == 0
+		checkKDE.Run(rt, c)
 	})
 }
 
